@@ -21,7 +21,7 @@ var words = []string{"can", "Man", "cannot", "so ban", "socan", "x y", "", "CAN"
 var sortStrings = []string{"a", "A", "b", "B", "ab", "Ab", "", "c", "Z", "z", "[", "_", "aa"}
 var strKeys = []string{"a", "A", "b", "k1", "k2", "k 3", "", "x/y", "é", "zz", "0", "1", "01", "key", "Key", "q\"", "=", "MQ==", "-", "~"}
 
-func p64(i int64) *int64  { return &i }
+func p64(i int64) *int64    { return &i }
 func pstr(s string) *string { return &s }
 
 func genItems(r *vh.Rng, field string, walk bool) []Item {
